@@ -1,8 +1,9 @@
 // Command net serves property C30 (network fetches never reach private or local addresses).
 //
 //	net expand --in cases.ndjson --out concrete.ndjson
+//	net linkprobe
 //
-// turns the abstract cases printed by TLC for spec/Net.tla (URL classes, host names and addresses as integer
+// expand turns the abstract cases printed by TLC for spec/Net.tla (URL classes, host names and addresses as integer
 // sequences) into concrete cases for the in-package shims (URL strings, allow-list strings), checking with the
 // real net/url parser that every concrete URL has exactly the attributes of its abstract class.  The guards of
 // pdfcpu are unexported, so the replay itself happens in the shims
@@ -10,14 +11,23 @@
 package main
 
 import (
+	"bufio"
+	"bytes"
 	"encoding/json"
 	"fmt"
+	"net"
 	"net/netip"
 	"net/url"
 	"os"
 	"strings"
+	"sync"
+	"time"
+
+	"github.com/pdfcpu/pdfcpu/pkg/api"
+	"github.com/pdfcpu/pdfcpu/pkg/pdfcpu/model"
 
 	"verif/harness/lib/h"
+	"verif/harness/lib/rawpdf"
 )
 
 // abstract case (TLC)
@@ -189,13 +199,77 @@ func expand() {
 	h.Summary(map[string]any{"cases": n, "kinds": kinds})
 }
 
+// linkprobe is an OBSERVATION, not part of the verdict of C30 (the property enumerates revocation checks and remote
+// images): the opt-in link check (`pdfcpu validate -links`, Configuration.ValidateLinks) fetches URIs found in the
+// document.  The probe validates a one-page document whose link annotation points at a listener opened here on
+// 127.0.0.1 (test scaffolding; nothing leaves the process' loopback) and reports whether pdfcpu connected to it.
+func linkprobe() {
+	api.DisableConfigDir()
+	for _, k := range []string{"HTTP_PROXY", "HTTPS_PROXY", "http_proxy", "https_proxy", "ALL_PROXY", "all_proxy"} {
+		os.Unsetenv(k)
+	}
+	ln, err := net.Listen("tcp", "127.0.0.1:0")
+	if err != nil {
+		h.Summary(map[string]any{"available": false, "why": err.Error()})
+		return
+	}
+	defer ln.Close()
+	var mu sync.Mutex
+	hits, auth := 0, false
+	go func() {
+		for {
+			c, err := ln.Accept()
+			if err != nil {
+				return
+			}
+			c.SetDeadline(time.Now().Add(3 * time.Second))
+			br := bufio.NewReader(c)
+			sawAuth := false
+			for {
+				line, err := br.ReadString('\n')
+				if err != nil || line == "\r\n" {
+					break
+				}
+				if strings.HasPrefix(strings.ToLower(line), "authorization:") {
+					sawAuth = true
+				}
+			}
+			mu.Lock()
+			hits++
+			auth = auth || sawAuth
+			mu.Unlock()
+			c.Write([]byte("HTTP/1.1 200 OK\r\nContent-Length: 0\r\nConnection: close\r\n\r\n"))
+			c.Close()
+		}
+	}()
+	uri := fmt.Sprintf("http://alice:s3cret@%s/probe", ln.Addr().String())
+	var d rawpdf.Doc
+	cat, pages, page := d.Reserve(), d.Reserve(), d.Reserve()
+	annot := d.Add(fmt.Sprintf("<< /Type /Annot /Subtype /Link /Rect [10 10 100 30] /Border [0 0 0] /A << /Type /Action /S /URI /URI (%s) >> >>", uri))
+	d.Set(cat, fmt.Sprintf("<< /Type /Catalog /Pages %d 0 R >>", pages))
+	d.Set(pages, fmt.Sprintf("<< /Type /Pages /Kids [%d 0 R] /Count 1 >>", page))
+	d.Set(page, fmt.Sprintf("<< /Type /Page /Parent %d 0 R /MediaBox [0 0 200 200] /Annots [%d 0 R] >>", pages, annot))
+	d.Root = cat
+	conf := model.NewDefaultConfiguration()
+	conf.ValidateLinks = true
+	conf.Timeout = 3
+	verr := api.Validate(bytes.NewReader(d.Bytes()), conf)
+	time.Sleep(50 * time.Millisecond)
+	mu.Lock()
+	defer mu.Unlock()
+	h.Summary(map[string]any{"available": true, "uri": uri, "connected_to_loopback": hits > 0, "connections": hits,
+		"sent_credentials": auth, "validate_error": fmt.Sprint(verr)})
+}
+
 func main() {
 	if len(os.Args) < 2 {
-		h.Die("usage: net expand --in f --out g")
+		h.Die("usage: net expand --in f --out g | net linkprobe")
 	}
 	switch os.Args[1] {
 	case "expand":
 		expand()
+	case "linkprobe":
+		linkprobe()
 	default:
 		h.Die("unknown sub-command %s", os.Args[1])
 	}
